@@ -135,6 +135,9 @@ func (a Analysis) Tags() []string {
 			}
 		}
 	}
+	if a.Multicol >= 1 {
+		out = append(out, "nest:multicol>=1")
+	}
 	add("multicol", a.Multicol)
 	add("flex", a.Flex)
 	add("grid", a.Grid)
